@@ -29,7 +29,11 @@ RULE = ("runtime audit of the real code: (a) first cases of the C01-C07, C10, C2
         "(the only allowed mutation: the --output file); (d) disk images (VMDK sparse / flat / multi-extent / descriptor, QCOW2, VHD, VDI, HDS) materialised in a "
         "temp directory and handed over as handles the caller opened itself: open() rb / r+b / w+b / a+b, unbuffered FileIO, NamedTemporaryFile, "
         "recording Buffered* subclasses; every open made from a library frame is checked for write mode / flags, content + size + mtime of every "
-        "file compared before / after. Expected: the observed trace is all read-only and every path open maps to "
+        "file compared before / after; (e) every program the library ships (modules of dissect/hypervisor/tools, console scripts) run in its own "
+        "process inside a sandbox directory (current directory = an evidence directory) with generic command lines (list / test / extract / "
+        "extract into a named directory / create / -o) on a hand-written tar and visor tar whose members are named etc/hosts.txt, "
+        "../evidence/keep.bin, ../../escaped.bin and an absolute path: the whole tree is compared before / after, anything created, changed "
+        "or removed outside the path the user named for output is a mutation. Expected: the observed trace is all read-only and every path open maps to "
         "a site of the extracted call-site table. Non-trivial = the trace contains at least one read on a handle or one path open.")
 ASSUMPTIONS = ["Python-level effects only: sys audit events + method calls on the handles we supply; effects inside C extensions that "
                "raise no audit event are invisible", "the static table covers calls visible in the AST (no dynamic dispatch: checked by the table itself)"]
@@ -499,6 +503,167 @@ def _rwfile_run(case, handles, err):
         shutil.rmtree(d, ignore_errors=True)
 
 
+# --------------------------------------------------------------------------- every program the library ships, in a sandbox
+
+KNOWN_TOOLS = {"dissect.hypervisor.tools.envelope:main"}       # driven with real envelopes by the "cli" family above
+# generic command lines ("A" = an archive in the current directory, "OUT" / "NEW" = a path the user names for output,
+# "F" = an existing file); the second entry is the argument that names the output, if any
+TOOL_ARGV = [([], None), (["A"], None), (["-l", "A"], None), (["-t", "A"], None), (["-e", "A"], None), (["-e", "A", "OUT"], "OUT"),
+             (["-x", "A"], None), (["-xf", "A", "-C", "OUT"], "OUT"), (["-c", "NEW", "F"], "NEW"), (["-o", "OUT", "A"], "OUT"),
+             (["--extract", "A", "OUT"], "OUT"), (["--output", "OUT", "A"], "OUT"), (["extract", "A", "OUT"], "OUT"), (["A", "OUT"], "OUT"),
+             (["-v", "-e", "A", "OUT"], "OUT"), (["--create", "NEW", "F"], "NEW")]
+
+
+def shipped_programs(repo=None):
+    """-> sorted ["module:function"]: every module of dissect/hypervisor/tools (read off the directory; whether it has a
+    callable `main` is seen when it is run) and every console script of pyproject.toml [project.scripts] / setup.cfg"""
+    repo = Path(repo or core.REPO)
+    out = set()
+    tdir = repo / "dissect" / "hypervisor" / "tools"
+    if tdir.is_dir():
+        for p in sorted(tdir.rglob("*.py")):
+            if p.name != "__init__.py":
+                out.add("dissect.hypervisor.tools." + ".".join(p.relative_to(tdir).with_suffix("").parts) + ":main")
+    try:
+        import tomllib
+        proj = tomllib.loads((repo / "pyproject.toml").read_text()).get("project", {})
+        for tab in [proj.get("scripts", {}), proj.get("gui-scripts", {})] + list(proj.get("entry-points", {}).values()):
+            for v in tab.values():
+                if isinstance(v, str) and ":" in v:
+                    out.add(v.strip().split("[")[0].strip())
+    except Exception:  # noqa
+        pass
+    return sorted(out)
+
+
+def _tool_cases(seed, rng, mult):
+    """every shipped program x generic command lines x two archive flavours. The decrypt tool takes part as well (its real
+    work is the "cli" family): every generic command line ends in its usage error."""
+    progs = shipped_programs()
+    out = []
+    for prog in progs:
+        tmpl = list(range(len(TOOL_ARGV)))
+        if prog in KNOWN_TOOLS:
+            k = rng.choice([t for t in range(len(TOOL_ARGV)) if t not in (4, 5, 8, 9)])
+            tmpl = [4, 5, 8, 9, k]                          # a handful is enough for the program whose behaviour is pinned elsewhere
+        for t in tmpl:
+            flavor = ["ustar", "visor"][(t + seed) % 2]
+            out.append({"id": f"tool-{prog.split('.')[-1].replace(':', '.')}-{t}-{flavor}", "fam": "tool", "prog": prog, "argv_t": t, "flavor": flavor,
+                        "recipe": {"fam": "tool", "prog": prog, "argv": TOOL_ARGV[t][0], "flavor": flavor}, "queries": []})
+    return out
+
+
+def _tar_header(name: bytes, size: int, typeflag: bytes = b"0", visor_off=None) -> bytes:
+    h = bytearray(512)
+    h[0:len(name)] = name[:100]
+    h[100:108] = b"0000644\0"
+    h[108:116] = b"0000000\0"
+    h[116:124] = b"0000000\0"
+    h[124:136] = b"%011o\0" % size
+    h[136:148] = b"%011o\0" % 1700000000
+    h[156:157] = typeflag
+    if visor_off is None:
+        h[257:265] = b"ustar\x0000"
+    else:
+        h[257:265] = b"visor  \0"
+        struct.pack_into("<IIII", h, 496, visor_off, 0, 0, 0)
+    h[148:156] = b"        "
+    h[148:156] = b"%06o\0 " % sum(h)
+    return bytes(h)
+
+
+def hostile_archive(members, flavor: str) -> bytes:
+    """a tar (inline data) / visor tar (data area behind the end-of-archive blocks) with exactly the given (name, content)"""
+    pad = lambda b: b + bytes(-len(b) % 512)
+    if flavor == "ustar":
+        return b"".join(_tar_header(n.encode(), len(c)) + pad(c) for n, c in members) + bytes(1024)
+    hdrs_len = 512 * len(members) + 1024
+    out, area, off = b"", b"", hdrs_len
+    for n, c in members:
+        out += _tar_header(n.encode(), len(c), visor_off=off if c else 0)
+        area += pad(c)
+        off = hdrs_len + len(area)
+    return out + bytes(1024) + area
+
+
+def _tree(root: Path):
+    """{relative path: ("d",) | ("l", target) | ("f", size, sha256, mtime_ns)} of everything below root (links not followed)"""
+    import hashlib
+    out = {}
+    for dp, dns, fns in os.walk(root):
+        for n in dns + fns:
+            p = Path(dp) / n
+            rel = str(p.relative_to(root))
+            if p.is_symlink():
+                out[rel] = ("l", os.readlink(p))
+            elif p.is_dir():
+                out[rel] = ("d",)
+            else:
+                st = p.stat()
+                out[rel] = ("f", st.st_size, hashlib.sha256(p.read_bytes()).hexdigest(), st.st_mtime_ns)
+    return out
+
+
+def _tool_run(case, err):
+    """run one shipped program the way a user would (own process, current directory = the evidence directory) on a hand-written
+    archive whose members are named etc/hosts.txt, ../evidence/keep.bin, ../../escaped.bin and <sandbox>/abs/pwned.bin.
+    Observed: the complete tree of the sandbox before / after. -> (changes outside the named output, named output or None, ran)"""
+    import shutil
+    import subprocess
+    import tempfile
+    root = Path(tempfile.mkdtemp(prefix="hvc09t."))
+    try:
+        box = root / "case"
+        ev = box / "evidence"
+        ev.mkdir(parents=True)
+        (root / "abs").mkdir()
+        (ev / "keep.bin").write_bytes(b"evidence: must stay as it is\n" * 8)
+        (ev / "notes.txt").write_bytes(b"collected 2024-01-01\n")
+        (ev / "sub").mkdir()
+        (ev / "sub" / "inner.dat").write_bytes(bytes(range(256)))
+        payload = b"overwritten by a member of the archive\n"
+        members = [("etc/hosts.txt", b"127.0.0.1 localhost\n"), ("../evidence/keep.bin", payload), ("../../escaped.bin", payload),
+                   (str(root / "abs" / "pwned.bin"), payload), ("notes.txt", payload), ("empty", b"")]
+        (ev / "boot.v00").write_bytes(hostile_archive(members, case["flavor"]))
+        argv_t, named = TOOL_ARGV[case["argv_t"]]
+        names = {"A": "boot.v00", "OUT": "../out", "NEW": "../new.v00", "F": "notes.txt"}
+        argv = [names.get(a, a) for a in argv_t]
+        out_abs = (box / names[named][3:]) if named else None
+        if named == "OUT" and case["argv_t"] % 2 == 1:
+            out_abs.mkdir()                                 # the user prepared the directory
+        mod, func = case["prog"].split(":")
+        code = ("import sys, importlib\n"
+                f"m = importlib.import_module({mod!r})\n"
+                f"f = getattr(m, {func!r}, None)\n"
+                "if not callable(f):\n    print('NO-ENTRY'); sys.exit(97)\n"
+                f"sys.argv = [{mod.split('.')[-1]!r}] + {argv!r}\n"
+                "sys.exit(f())\n")
+        before = _tree(root)
+        envp = dict(os.environ, PYTHONPATH=core.REPO, PYTHONDONTWRITEBYTECODE="1", PYTHONWARNINGS="ignore")
+        try:
+            r = subprocess.run([sys.executable, "-c", code], cwd=str(ev), env=envp, capture_output=True, timeout=40, stdin=subprocess.DEVNULL)
+            err["rc"] = str(r.returncode)
+            if r.returncode not in (0, 97):
+                err["0"] = (r.stderr or r.stdout).decode("utf-8", "replace").strip().splitlines()[-1][:200] if (r.stderr or r.stdout).strip() else f"rc={r.returncode}"
+        except subprocess.TimeoutExpired:
+            err["0"] = "timeout"
+        after = _tree(root)
+        changes, touched_out = [], False
+        outrel = str(out_abs.relative_to(root)) if out_abs else None
+        for rel in sorted(set(before) | set(after)):
+            b, a = before.get(rel), after.get(rel)
+            if a == b:
+                continue
+            if outrel is not None and (rel == outrel or rel.startswith(outrel + "/")):
+                touched_out = True
+                continue
+            what = "created" if b is None else "removed" if a is None else "mtime-changed" if a[:3] == b[:3] else "content-changed"
+            changes.append(f"{what}:{rel}")
+        return changes, (str(out_abs) if touched_out else None), err.get("rc") != "97"
+    finally:
+        shutil.rmtree(root, ignore_errors=True)
+
+
 # --------------------------------------------------------------------------- cases
 
 def generate(seed, tier):
@@ -537,6 +702,7 @@ def generate(seed, tier):
     for i in range(24 * mult):
         fmt = ["vmx", "ovf", "vbox", "pvs"][i % 4]
         cases.append({"id": f"cfg-{fmt}-{i}", "fam": "config", "recipe": {"vm": gen_configs.gen_vm(rng), "fmt": fmt, "rseed": rng.getrandbits(32)}, "queries": []})
+    cases += _tool_cases(seed, random.Random(f"C09/tool/{seed}/{tier}"), mult)
     cases += _rwfile_cases(seed, random.Random(f"C09/rwfile/{seed}/{tier}"), mult)
     cases += _realfh_cases(random.Random(f"C09/realfh/{seed}/{tier}"), seed, mult)
     return cases
@@ -570,6 +736,7 @@ def _dirty_hyperv(data: bytes) -> bytes:
 def impl_run(case, built):
     fam = case["fam"]
     events, hmuts, reads, out_path = [], [], 0, None
+    pre_toks = []
     err = {}
     sparse.TRACK = []
     sparse.PERMISSIVE = True
@@ -592,6 +759,11 @@ def impl_run(case, built):
             events = _rwfile_run(case, handles, err)
         elif fam == "realfh":
             events, hmuts, reads = _realfh_run(case, err)
+        elif fam == "tool":
+            changes, out_path, ran = _tool_run(case, err)
+            hmuts += [(c, 0, 0) for c in changes]
+            reads = 1 if ran else 0
+            pre_toks += ([f"r:{hx(case['prog'])}"] if ran else []) + ([f"W:{hx(out_path)}:c"] if out_path else [])
         elif fam == "envelope":
             import gen_envelope
             b = gen_envelope.build(case["recipe"])
@@ -731,7 +903,7 @@ def impl_run(case, built):
         sparse.TRACK = None
         sparse.PERMISSIVE = False
     # ---- assemble the observed trace
-    toks, notes = [], []
+    toks, notes = list(pre_toks), []
     sites = _sites()
     for k, path, extra, lf in events:
         if k == "R":
